@@ -7,23 +7,37 @@ def run(tier, replay=None):
     total = 10000 if tier == 'quick' else 120000
     exe = common.hbuild('h_file', ['h_file.cpp'], 'asan', need_reflect=True)
     env = common.san_env(dict(VERIF_TMP=common.scratch_dir()))
+    # sessions of more than 4 GiB (plain build, compressible payloads) run beside the sharded sessions: one in the quick tier, four configurations in thorough
+    big = common.hbuild('h_big', ['h_big.cpp'], 'plain')
+    nbig = 1 if tier == 'quick' else 4
+    bigsh = common.Sharded(big, lambda a, b: ['big', common.seed(), a, b], nbig, env=env, chunk=1, tag='c01big', timeout=2400, case_timeout=1000)
+    import threading
+    bt = threading.Thread(target=bigsh.run)
+    bt.start()
     sh = common.Sharded(exe, lambda a, b: ['c01', common.seed(), a, b], total, env=env, tag='c01', timeout=1500, case_timeout=200).run()
+    bt.join()
     common.absorb(res, sh)
-    st = common.merge_stats(sh.stats)
+    common.absorb(res, bigsh)
+    st = common.merge_stats(sh.stats + bigsh.stats)
     res.evaluations = st.get('sessions', 0)
     res.distinct = set(st.get('shapes', []))
     res.rule = ('sessions: 0..40 objects drawn from all reflected classes (scalars random with boundary bias, payload lengths 0..N incl. '
                 '255/65535/64 KiB..300 KiB, every variant selector, default-constructed objects), written through File with level 0..9 x '
                 'container size {1,2,3,7,16,100,4 KiB,0x1ffff,0x20000,0x20001,1 MiB,4 MiB} x trailer on/off x default or tiny limits, read '
                 'back and compared member by member with the caller\'s clone (library-derived length fields vs container sizes), then '
-                'null/eof/!good; distinct = (class, payload residues, variant) shapes of the objects compared')
+                'null/eof/!good; distinct = (class, payload residues, variant) shapes of the objects compared; plus sessions pushing more than '
+                '2^32 bytes of AppText objects through the pipeline (every payload byte, order, counters, header sizes vs the container chain)')
     res.samples = st.get('samples', [])[:6]
     res.extra = dict(objects_compared=st.get('objects', 0), classes_seen=len(set(s.split(':')[0] for s in st.get('shapes', []))),
-                     levels=sorted(set(st.get('levels', []))), container_sizes=sorted(set(st.get('container_sizes', []))))
+                     levels=sorted(set(st.get('levels', []))), container_sizes=sorted(set(st.get('container_sizes', []))),
+                     sessions_beyond_4GiB=st.get('big_sessions', 0), objects_in_them=st.get('big_objects', 0), bytes_through_pipeline_in_them=st.get('big_bytes_through_pipeline', 0),
+                     max_stream_position=st.get('max_stream_position', 0), big_samples=st.get('big_samples', []))
     res.assumptions = ['payload volume per session is scaled with the container size (<= 2000 containers) because the stream stages scan '
                        'their container list per chunk; fields are sampled, not enumerated']
     if st.get('sessions', 0) < total and not (sh.crashes or sh.hangs or sh.viols):
         res.inconclusive.append('only %d of %d sessions ran' % (st.get('sessions', 0), total))
+    if res.extra['sessions_beyond_4GiB'] < nbig and not (bigsh.viols or bigsh.crashes or bigsh.hangs):
+        res.inconclusive.append('4 GiB sessions: %d of %d reported' % (res.extra['sessions_beyond_4GiB'], nbig))
     if res.extra['classes_seen'] < 118 and tier == 'thorough':
         res.inconclusive.append('coverage gate: only %d classes seen' % res.extra['classes_seen'])
     if len(res.extra['levels']) < 10 or len(res.extra['container_sizes']) < 12:
